@@ -73,8 +73,8 @@ RECURSIVE AllScalars(_, _, _)
 AllScalars(W, v, args) ==
   IF args = <<>> THEN <<>> ELSE ArgScalars(W, v, Head(args)) \o AllScalars(W, v, Tail(args))
 
-Truth(x) ==   \* condition of IF: TRUE / FALSE / error value
-  CASE x.k = "e" -> x
+Truth(x) ==   \* condition of IF: TRUE / FALSE / error value (possibly one of several)
+  CASE x.k \in {"e", "any"} -> x
     [] x.k = "b" -> x
     [] x.k = "n" -> Bool(x.n # 0)
     [] x.k = "z" -> Bool(FALSE)
@@ -105,7 +105,7 @@ Ev(W, v, e) ==
                         ELSE LET m == MaxNums(s, [k |-> "none"]) IN IF m.k = "n" THEN m ELSE Zero)
                [] f = "IF" ->
                     (LET c == Truth(Scalar(Ev(W, v, args[1])))
-                     IN IF c.k = "e" THEN c
+                     IN IF IsErrLike(c) THEN c
                         ELSE IF c.b THEN Ev(W, v, args[2]) ELSE Ev(W, v, args[3]))
                [] f = "IFERROR" ->
                     (LET x == Scalar(Ev(W, v, args[1]))
@@ -273,7 +273,7 @@ NK(W, v, e) ==
          (IF e[2] = "IF" THEN
              NK(W, v, e[3][1]) /\
              (LET c == Truth(Scalar(Ev(W, v, e[3][1])))
-              IN IF c.k = "e" THEN TRUE ELSE NK(W, v, IF c.b THEN e[3][2] ELSE e[3][3]))
+              IN IF IsErrLike(c) THEN TRUE ELSE NK(W, v, IF c.b THEN e[3][2] ELSE e[3][3]))
           ELSE IF e[2] = "IFERROR" THEN
              NK(W, v, e[3][1]) /\
              (IsErrLike(Scalar(Ev(W, v, e[3][1]))) => NK(W, v, e[3][2]))
@@ -291,7 +291,7 @@ Waits(W, v, e) ==
          (IF e[2] = "IF" THEN
              (IF ~NK(W, v, e[3][1]) THEN Waits(W, v, e[3][1])
               ELSE LET c == Truth(Scalar(Ev(W, v, e[3][1])))
-                   IN IF c.k = "e" THEN {} ELSE Waits(W, v, IF c.b THEN e[3][2] ELSE e[3][3]))
+                   IN IF IsErrLike(c) THEN {} ELSE Waits(W, v, IF c.b THEN e[3][2] ELSE e[3][3]))
           ELSE IF e[2] = "IFERROR" THEN
              (IF ~NK(W, v, e[3][1]) THEN Waits(W, v, e[3][1])
               ELSE IF IsErrLike(Scalar(Ev(W, v, e[3][1]))) THEN Waits(W, v, e[3][2]) ELSE {})
